@@ -172,8 +172,8 @@ def check_C06(tr, history, meta, rng):
                 out.append(Finding("C06", "what is stored for an app does not depend on other apps' activity", idx,
                                    {"app": app, "op": proto.op_line(op), "difference": diff}, _c06_known(tr, idx, app, conn_apps)))
                 break
-        if out:
-            break
+        if [f for f in out if f.known is None]:
+            break           # (a difference excused as a known finding does not stop the other apps' comparison)
     return out
 
 
@@ -296,7 +296,8 @@ def _c14_one(tr, history, meta, st, msg, cmax, with_restart):
     nsides = len([s for s in (st.post.mb_sides if st.post else []) if s[0] == mbid]) if mbid else 0
     what = proto.op_line(op) + (" (duplicate sent after a server restart)" if with_restart else "")
     if orig_ans != dup_ans:
-        known = "K-crowded-rejoin" if (nsides >= 3 and any("error" in x for x in dup_ans)) else None
+        crowded_tok = "error " + proto.hx("crowded")
+        known = "K-crowded-rejoin" if (nsides >= 3 and dup_ans == [crowded_tok]) else None
         out.append(Finding("C14", "a re-sent command gets the same answer", j,
                            {"command": what, "original": orig_ans, "duplicate": dup_ans}, known))
         return out
@@ -332,7 +333,8 @@ def _touch_known(msg, a, b_obs, j, k):
     y = [r for r in db if r not in da]
     if len(x) == 1 and len(y) == 1:
         p, q = x[0].split(" "), y[0].split(" ")
-        if p[1] == "mailboxes" and q[1] == "mailboxes" and p[2:4] == q[2:4] and p[5:] == q[5:] and p[4] != q[4]:
+        if p[1] == "mailboxes" and q[1] == "mailboxes" and p[2:4] == q[2:4] and p[5:] == q[5:] and p[4] != q[4] \
+                and msg.get("mailbox") is not None and p[3] == proto.hx(msg["mailbox"]):
             return "K-close-touch"
     return None
 
@@ -379,7 +381,7 @@ def check_C10_resend(tr, history, meta, rng, thorough=False):
                 mbid = row[3] if row else None
             nsides = len([s for s in (st.post.mb_sides if st.post else []) if s[0] == mbid]) if mbid else 0
             if got_ans != want_ans:
-                known = "K-crowded-rejoin" if (nsides >= 3 and any("error" in x for x in got_ans)) else None
+                known = "K-crowded-rejoin" if (nsides >= 3 and got_ans == ["error " + proto.hx("crowded")]) else None
                 out.append(Finding("C10", "a re-sent command after a crash gets the same answer", j,
                                    {"command": proto.op_line(op), "crash_after_commit": k, "uncrashed": want_ans, "resent": got_ans}, known))
             elif got_db != want_db:
@@ -388,10 +390,8 @@ def check_C10_resend(tr, history, meta, rng, thorough=False):
                 known = None
                 if msg.get("type") == "close" and len(x) == 1 and len(y) == 1:
                     p, q = x[0].split(" "), y[0].split(" ")
-                    if p[1] == "mailboxes" and p[2:4] == q[2:4] and p[5:] == q[5:]:
+                    if p[1] == "mailboxes" and p[2:4] == q[2:4] and p[5:] == q[5:] and p[3] == proto.hx(msg.get("mailbox") or ""):
                         known = "K-close-touch"
-                if nsides >= 3:
-                    known = known or "K-crowded-rejoin"
                 out.append(Finding("C10", "a re-sent command after a crash reaches the same stored state", j,
                                    {"command": proto.op_line(op), "crash_after_commit": k, "uncrashed_only": x[:5], "resent_only": y[:5]}, known))
             if got_ans == want_ans and got_db == want_db and got_u != want_u:
@@ -407,9 +407,15 @@ def check_C10_resend(tr, history, meta, rng, thorough=False):
                 def phantom(row):
                     q = row.split(" ")
                     return msg.get("type") == "close" and q[1] == "u_mailboxes" and q[3] == "0" and q[5] == "0" and q[6] == "~"
+                before_u = urec(a["steps"][j - 1][2]) if j > 0 else []
+                own = list(want_u)
+                for r_ in before_u:
+                    if r_ in own:
+                        own.remove(r_)          # `own` = the records the uncrashed step itself wrote
+                crashed_usage = [e for e in st.raw_events if e.startswith("C ")][k - 1:k] == ["C usage"]
                 kinds = set()
                 for e_ in extra:
-                    if e_ in want_u:
+                    if e_ in own and crashed_usage:
                         kinds.add("K-usage-crash-dup")
                     elif phantom(e_):
                         kinds.add("K-reclose-usage-row")
